@@ -49,7 +49,8 @@ def _work(task):
             rep = contract.verify_lemma(lem, reg)
             fn_props = lem.props
         out = dict(kind=kind, name=name, status=rep.status, detail=rep.detail, paths=rep.paths, obligations=[],
-                   inlined=sorted(rep.inlined), used_contracts=sorted(rep.used_contracts), props=list(fn_props))
+                   inlined=sorted(rep.inlined), used_contracts=sorted(rep.used_contracts), props=list(fn_props),
+                   trusted_facts=sorted(rep.trusted_facts))
         gen_time = time.time() - t0
         seen = {}
         for ob in rep.obligations:
